@@ -16,7 +16,7 @@ from collections import Counter
 import vlib
 
 PREAMBLE = """From Coq Require Import List NArith ZArith Bool.
-From Similari Require Import Model.DistProto.
+From Similari Require Import Model.DistProto Model.DistProtoFine.
 Import ListNotations.
 """
 
@@ -211,27 +211,36 @@ def coq_track(t):
 
 
 def model_labels(r):
-    """the forced schedule as a DistProto label sequence (plus the caller's reads)"""
+    """the forced schedule as a DistProtoFine label sequence (plus the caller's reads). X<k> (a whole command) is the
+    ok half immediately followed by the err half; O<k> / F<k> are the halves on their own."""
     ncmd = r["S"] * len(effective_cands(r))
-    labels = ["DCopy"] if r["kind"] == "owned" else []
-    execs = 0
-    received = 0
+    labels = ["FCopy"] if r["kind"] == "owned" else []
+    sent = {"ok": 0, "err": 0}
+    got = {"ok": 0, "err": 0}
     returned = False
+
+    def eager():
+        out = ["FRecvOk"] * (sent["ok"] - got["ok"]) + ["FRecvErr"] * (sent["err"] - got["err"])
+        got["ok"], got["err"] = sent["ok"], sent["err"]
+        return out
+
     for tok in r["sched"]:
         if tok == "R":
             returned = True
             if r["recv"] == 1:
-                labels += ["DRecvOk"] * (execs - received) + ["DRecvErr"] * (execs - received)
-                received = execs
+                labels += eager()
         elif tok[0] == "E":
-            labels.append("DEnq %s%%nat" % tok[1:])
+            labels.append("FEnq %s%%nat" % tok[1:])
         else:
-            labels.append("DExec %s%%nat" % tok[1:])
-            execs += 1
+            if tok[0] in "XO":
+                labels.append("FExecOk %s%%nat" % tok[1:])
+                sent["ok"] += 1
+            if tok[0] in "XF":
+                labels.append("FExecErr %s%%nat" % tok[1:])
+                sent["err"] += 1
             if returned and r["recv"] == 1:
-                labels += ["DRecvOk", "DRecvErr"]
-                received += 1
-    labels += ["DRecvOk"] * (ncmd - received) + ["DRecvErr"] * (ncmd - received)
+                labels += eager()
+    labels += ["FRecvOk"] * (ncmd - got["ok"]) + ["FRecvErr"] * (ncmd - got["err"])
     return labels
 
 
@@ -244,9 +253,9 @@ def coq_case(r):
     ob = vlib.coq_bool(r["ob"])
     if r["kind"] == "foreign":
         cands = vlib.coq_list(["(%s)" % coq_track(t) for t in r["cands"]])
-        return "DistInst.run_foreign %s %s %d%%N %s %s" % (sh, cands, r["cls"], ob, lab)
+        return "DistInstFine.run_foreign_fine %s %s %d%%N %s %s" % (sh, cands, r["cls"], ob, lab)
     ids = vlib.coq_list(["%d%%N" % i for i in r["ids"]])
-    return "DistInst.run_owned %s %s %d%%N %s %s" % (sh, ids, r["cls"], ob, lab)
+    return "DistInstFine.run_owned_fine %s %s %d%%N %s %s" % (sh, ids, r["cls"], ob, lab)
 
 
 def opt(v):
@@ -267,10 +276,10 @@ def model_value(s):
 def compare_with_model(r, mv):
     """chunk by chunk, in arrival order; returns None or a description of the difference"""
     if mv is None:
-        return "the forced schedule is not a run of DistProto (some label not enabled)"
+        return "the forced schedule is not a run of DistProtoFine (some label not enabled)"
     final, okc, errc = mv
     if not final:
-        return "DistProto is not in a final state after the recorded trace"
+        return "DistProtoFine is not in a final state after the recorded trace"
     for name, impl, chunks in (("ok", r["ok"], okc), ("err", r["err"], errc)):
         pos = 0
         for i, ch in enumerate(chunks):
@@ -303,42 +312,37 @@ def check_trace(r):
             return "owned query: expected exactly one copy event before the first enqueue"
     threads = {}
     for kind, k, th in ev:
-        if kind in "bge":
+        if kind in "bgmne":
             if threads.setdefault(k, th) != th:
                 return "commands of shard %d ran on two threads" % k
     if len(set(threads.values())) != len(threads) or (caller & set(threads.values())):
         return "worker threads are not distinct"
     for k in range(S):
-        seq = "".join(e[0] for e in ev if e[0] in "bge" and e[1] == k)
-        if seq != "bge" * ncand:
-            return "shard %d: event sequence %s is not (begin gate end) x %d" % (k, seq, ncand)
-    # global order: commands executed one at a time, in the prescribed order, after exactly the prescribed enqueues
+        seq = "".join(e[0] for e in ev if e[0] in "bgmne" and e[1] == k)
+        if seq != "bgmne" * ncand:
+            return "shard %d: event sequence %s is not (begin gate ok-sent gate end) x %d" % (k, seq, ncand)
+    # global order: the halves of the commands were executed in the prescribed order, each after exactly the prescribed
+    # number of enqueues (g = ok half released, n = err half released)
     want = []
     nq = 0
     for tok in r["sched"]:
         if tok[0] == "E":
             nq += 1
         elif tok[0] == "X":
-            want.append((int(tok[1:]), nq))
+            want += [("g", int(tok[1:]), nq), ("n", int(tok[1:]), nq)]
+        elif tok[0] == "O":
+            want.append(("g", int(tok[1:]), nq))
+        elif tok[0] == "F":
+            want.append(("n", int(tok[1:]), nq))
     got = []
     nq = 0
-    open_cmd = None
     for kind, k, th in ev:
         if kind == "q":
             nq += 1
-        elif kind == "g":
-            if open_cmd is not None:
-                return "two commands overlap (shards %d and %d)" % (open_cmd, k)
-            open_cmd = k
-            got.append((k, nq))
-        elif kind == "e":
-            if open_cmd != k:
-                return "end of a command of shard %d without its start" % k
-            open_cmd = None
-    # a worker may be released inside the hook of enqueue i before the hook's own `q` log entry of a LATER enqueue;
-    # the count of enqueues seen when the gate is passed must equal the prescribed one
+        elif kind in "gn":
+            got.append((kind, k, nq))
     if got != want:
-        return "executed (shard, enqueues so far) %s, prescribed %s" % (got, want)
+        return "executed (half, shard, enqueues so far) %s, prescribed %s" % (got, want)
     return None
 
 
@@ -433,6 +437,8 @@ def run(chk):
             hist["with_class_errors"] += 1
         nonempty = len(set(t["id"] % r["S"] for t in r["store"]))
         default = [t for t in r["sched"] if t[0] == "E"] + ["R"] + ["X%d" % k for _ in range(len(effective_cands(r))) for k in range(r["S"])]
+        if any(t[0] in "OF" for t in r["sched"]):
+            hist["fine_grained_schedule"] += 1
         if nonempty >= 2 and r["mode"] == "gated" and r["sched"] != default:
             nontrivial.add(case_text(r))
         bad = oracle(r)
@@ -449,8 +455,10 @@ def run(chk):
         "evaluations": len(runs),
         "distinct_nontrivial": len(nontrivial),
         "rule": "a run = (store content, candidate batch or owned ids, class, only_baked, shard count, forced interleaving of caller "
-                "enqueues E<k> / worker commands X<k> / return point R, receive mode). Exhaustive part: every interleaving for "
-                "<= 2 shards and <= 2 candidates (2/5/8/169 schedules); randomised part: 1-4 shards, <= 4 candidates; free part: "
+                "enqueues E<k> / worker commands X<k> (or their halves: ok send O<k>, err send F<k>, the worker parked in between) / "
+                "return point R, receive mode). Exhaustive part: every command-level interleaving for <= 2 shards and <= 2 candidates "
+                "(2/5/8/169 schedules) and every send-level interleaving for shards x candidates <= 2 (3/12/45), 60 (thorough 400) "
+                "random send-level ones for 2x2 (of 9564); randomised part: 1-4 shards, <= 4 candidates; free part: "
                 "ungated owned queries over 12 of 16-24 mutually comparable tracks. non-trivial = >= 2 non-empty shards and the "
                 "forced schedule is not the default (all enqueues, return, then workers in program order); distinct by (case, schedule)",
         "samples": [case_text(r)[:400] for r in runs[:2] + runs[-1:]],
